@@ -265,10 +265,23 @@ impl<T> CollectTrusted<T> for Vec<T> {
             .expect("The iterator must have an upper bound");
         let mut vec = Vec::<T>::with_capacity(len);
         let mut ptr = vec.as_mut_ptr();
+        #[cfg(feature = "verif-hooks")]
+        let mut written = 0usize;
         unsafe {
             for v in iter {
+                #[cfg(feature = "verif-hooks")]
+                {
+                    if written == len {
+                        crate::verif_hooks::trusted_len_overrun(len);
+                    }
+                    written += 1;
+                }
                 std::ptr::write(ptr, v);
                 ptr = ptr.add(1);
+            }
+            #[cfg(feature = "verif-hooks")]
+            if written != len {
+                crate::verif_hooks::trusted_len_underrun(len, written);
             }
             vec.set_len(len);
         }
@@ -289,11 +302,24 @@ impl<T> CollectTrusted<T> for Vec<T> {
             .expect("The iterator must have an upper bound");
         let mut vec = Vec::<T>::with_capacity(len);
         let mut ptr = vec.as_mut_ptr();
+        #[cfg(feature = "verif-hooks")]
+        let mut written = 0usize;
         unsafe {
             for v in iter {
                 let v = v?;
+                #[cfg(feature = "verif-hooks")]
+                {
+                    if written == len {
+                        crate::verif_hooks::trusted_len_overrun(len);
+                    }
+                    written += 1;
+                }
                 std::ptr::write(ptr, v);
                 ptr = ptr.add(1);
+            }
+            #[cfg(feature = "verif-hooks")]
+            if written != len {
+                crate::verif_hooks::trusted_len_underrun(len, written);
             }
             vec.set_len(len);
         }
